@@ -419,7 +419,7 @@ class Elaborator(object):
                 sig = self.new_signal(_join(path, p.name), w, kind)
             else:
                 aliased[p.name] = True
-            sym = Sym(p.name, kind, p.direction, sig.idx, w, p.signed, msb, lsb, p.line)
+            sym = Sym(p.name, kind, p.direction, sig.idx, w, p.signed, msb, lsb, p.line, scalar=p.range is None)
             sc.syms[p.name] = sym
             if p.init is not None:
                 if not p.is_reg:
@@ -492,7 +492,7 @@ class Elaborator(object):
                 continue
             sig = self.new_signal(_join(sc.path, name), w, kind)
             sc.syms[name] = Sym(name, kind, None, sig.idx, w, signed, msb, lsb, line,
-                                is_integer=it.kind == 'integer')
+                                is_integer=it.kind == 'integer', scalar=(it.kind != 'integer' and it.range is None))
             if init is not None:
                 if kind == 'net':
                     extra_assigns.append(ContAssign(Id(name, line=line), init, line=line))
